@@ -149,8 +149,13 @@ pub const NUM_POOL: [(&str, f64); 22] = [
     ("5", 5.0),
 ];
 
-pub const STR_POOL: [&str; 18] = [
+pub const STR_POOL: [&str; 24] = [
     "", "a", "abc", "hello world", "10", " 0x10 ", "1e2", "end", "nil", "it's", "say \"hi\"", "back\\slash", "tab\there", "line\nbreak", "]]", "x]=]y", "%d%s", "é",
+    // long enough for the generators' long-bracket form (>= 60 bytes, or >= 20 bytes with >= 6 line feeds)
+    "GET /index.html HTTP/1.1\r\nHost: example.org\r\nAccept: */*\r\n\r\n",
+    "l1\nl2\nl3\nl4\nl5\nl6\nl7: the last line of several",
+    "see [[Getting Started]] and a[b[1]] in a text that is long enough for brackets",
+    "\u{1}7", "100%", "naïve café größe",
 ];
 
 fn num(v: f64) -> Expr {
@@ -448,6 +453,12 @@ impl<'a, 'b> Gen<'a, 'b> {
             }
             5 => {
                 self.stat("interp_string");
+                if self.t.bool(30) {
+                    // no value at all: the text is a plain string (`%` must not be doubled)
+                    self.stat("interp_without_values");
+                    let lit = ["100%", "% done", "a", "%s %d", "{x}", "tab\there"][self.t.choose(6)];
+                    return Expr::Interp(vec![InterpSeg::Str(lit.as_bytes().to_vec())]);
+                }
                 let n = 1 + self.t.choose(3);
                 let mut segs = vec![];
                 for i in 0..n {
